@@ -416,6 +416,10 @@ ReB(a) == SRe(a.re)
 \* impl_signed!
 IsPositiveB(a) == SIsPositive(a.re)
 IsNegativeB(a) == SIsNegative(a.re)
+\* PartialEq, PartialOrd (and the approx traits) of the four field-compatible types: self.re.eq(&other.re),
+\* self.re.partial_cmp(&other.re)
+EqB(a, b) == a.re = b.re
+LtB(a, b) == FLt(ReB(a), ReB(b))
 AbsB(ty, a) == IF IsPositiveB(a) THEN a ELSE NegB(ty, a)
 AbsSubB(ty, a, b) == IF FLt(ReB(b), ReB(a)) THEN SubB(ty, a, b) ELSE ZeroB(ty)
 SignumB(ty, a) ==
@@ -504,6 +508,15 @@ TowerB(fn, re, ord) ==
       [] fn = "cosh" ->
             LET s == SFun("sinh", re)  c == SFun("cosh", re)
             IN  <<c, s, G2(ord, c), G3(ord, s)>>
+      \* fn tanh: f0 = tanh(re); f1 = 1 - f0*f0; f2 = -f0*f1*2; f3 = (f0*f0*4 - f1*2)*f1
+      \* (since the repair "fix: tanh returned NaN once cosh overflows"; before: self.sinh() / self.cosh(),
+      \*  which is inf/inf = NaN for |re| > 710.4 (f64), 89.4 (f32) -- Special.tla, case "saturate")
+      [] fn = "tanh" ->
+            LET f0 == SFun("tanh", re)
+                f1 == SOne (-) (f0 (.) f0)
+                f2 == G2(ord, SMulF(SNeg(f0) (.) f1, QInt(2)))
+                f3 == G3(ord, (SMulF(f0 (.) f0, QInt(4)) (-) SMulF(f1, QInt(2))) (.) f1)
+            IN  <<f0, f1, f2, f3>>
       [] fn = "asin" ->
             LET rec == SRecip(SOne (-) (re (.) re))
                 f0 == SFun("asin", re)
@@ -548,7 +561,7 @@ TowerB(fn, re, ord) ==
             IN  <<f0, f1, f2, f3>>
 
 TowerFns == {"recip", "sqrt", "cbrt", "exp", "exp2", "exp_m1", "ln", "log2", "log10", "ln_1p",
-             "sin", "cos", "sinh", "cosh", "asin", "acos", "atan", "asinh", "acosh", "atanh"}
+             "sin", "cos", "sinh", "cosh", "tanh", "asin", "acos", "atan", "asinh", "acosh", "atanh"}
 
 \* fn log(&self, base: F)
 TowerLogB(re, base, ord) ==
@@ -599,7 +612,7 @@ PowfB(ty, x, nq, near2) ==
 RecipB(ty, x) == ElemB(ty, "recip", x)
 SinCosB(ty, x) == <<ElemB(ty, "sin", x), ElemB(ty, "cos", x)>>
 TanB(ty, x)  == LET sc == SinCosB(ty, x) IN DivB(ty, sc[1], sc[2])
-TanhB(ty, x) == DivB(ty, ElemB(ty, "sinh", x), ElemB(ty, "cosh", x))
+TanhB(ty, x) == ElemB(ty, "tanh", x)
 \* fn atan2(&self, other):
 \*   res = if |self.re()| > |other.re()| { -(other / self).atan() } else { (self / other).atan() };
 \*   res.re = self.re.atan2(other.re)
